@@ -319,6 +319,24 @@ func c14PKCS8(c *Ctx) {
 		fs := fieldStores(r, be)
 		c.Check(strings.HasPrefix(fs["D"], "frombytes(local(x509.sm2PrivateKey).PrivateKey"), rule, fname(r), "D = integer of the private key octets", "", "D is "+fs["D"], r.Pos())
 		c.Check(strings.HasPrefix(fs["X"], "res0(call:ScalarBaseMult(") && strings.HasPrefix(fs["Y"], "res1(call:ScalarBaseMult("), rule, fname(r), "public key recomputed by base-point multiplication", "", "public point is "+fs["X"], r.Pos())
+		if sbm := findCall(r, "ScalarBaseMult"); sbm != nil {
+			arg := sbm.Common().Args[len(sbm.Common().Args)-1]
+			form := be.bytesOf(arg, sbm).String()
+			dbg("ParseSm2PrivateKey scalar form: %s", form)
+			// the scalar must denote the same integer as D: the private key octets, optionally left-padded
+			// with zeros (stripping or adding leading zeros keeps the big-endian value; anything else does not)
+			inner := form
+			if strings.HasPrefix(inner, "padleft(") && strings.HasSuffix(inner, ")") {
+				if i := strings.LastIndex(inner, ","); i > 0 {
+					inner = inner[i+1 : len(inner)-1]
+				}
+			}
+			inner = strings.TrimSuffix(strings.TrimPrefix(inner, "pad32("), ")")
+			want := strings.TrimSuffix(strings.TrimPrefix(fs["D"], "frombytes("), ")")
+			c.Check(inner == want || "call:Bytes("+fs["D"]+")" == form, rule, fname(r), "the public key is recomputed from the same scalar as D", "", "ScalarBaseMult is given "+form+" while D is "+fs["D"]+": the octets must be used as they are or left-padded with zeros", sbm.Pos())
+		} else {
+			c.Undecided(rule, fname(r), "the public key is recomputed from the same scalar as D", "no ScalarBaseMult call", r.Pos())
+		}
 	}
 	// encrypted
 	w := c.Fn("x509", "MarshalSm2EcryptedPrivateKey")
